@@ -6,6 +6,7 @@ import (
 	"encoding/json"
 	"fmt"
 	"io"
+	"math"
 	"net/http"
 	"net/http/httptest"
 	"net/url"
@@ -148,6 +149,10 @@ func genWindows(g *Rng, tier string) *Plan {
 			InResponseTo: "id-req", Status: saml.StatusSuccess, TimeForm: g.Intn(7)}
 		m, c := drawMargin(g, mid)
 		spec.IssueMs = x + m - mid
+		if c == "far-out" && g.Bool(0.5) {
+			// centuries back, verbatim: "@wrap" = the SP's clock at examination - 2^64 ns - 30 s, where 64-bit nanosecond arithmetic comes round to "30 s ago"
+			spec.IssueText, spec.IssueMs = Pick(g, "@wrap", "@wrap", "1700-01-01T00:00:00Z", "1000-06-15T12:00:00Z", "0001-01-01T00:00:00Z"), -3_000_000_000_000
+		}
 		st.Classes = append(st.Classes, "resp-issue:"+c)
 		if strings.HasPrefix(st.Entry, "artifact") {
 			m, c = drawMargin(g, mid)
@@ -162,6 +167,9 @@ func genWindows(g *Rng, tier string) *Plan {
 				Audiences: []string{spBase + "/saml/metadata"}, Sign: layout != 0, SessionIndex: "si"}
 			m, c = drawMargin(g, mid)
 			a.IssueMs = x + m - mid
+			if c == "far-out" && g.Bool(0.5) {
+				a.IssueText, a.IssueMs = Pick(g, "@wrap", "@wrap", "1700-01-01T00:00:00Z", "1000-06-15T12:00:00Z"), -3_000_000_000_000
+			}
 			st.Classes = append(st.Classes, fmt.Sprintf("as%d-issue:%s", j, c))
 			m, c = drawMargin(g, mcs)
 			a.NotBefore = i64(x - m + mcs)
@@ -263,6 +271,15 @@ func execWindows(t *testing.T, p *Plan) *Result {
 			continue
 		}
 		t0 := time.Now()
+		wrap := t0.Add(ms(st.DelayMs + st.BackMs + st.SkewMs)).Add(math.MinInt64).Add(math.MinInt64).Add(-30 * time.Second).UTC().Format("2006-01-02T15:04:05.999999999Z")
+		if st.Spec.IssueText == "@wrap" {
+			st.Spec.IssueText = wrap
+		}
+		for ai := range st.Spec.Assertions {
+			if st.Spec.Assertions[ai].IssueText == "@wrap" {
+				st.Spec.Assertions[ai].IssueText = wrap
+			}
+		}
 		respEl := BuildResponseEl(&st.Spec, t0)
 		var body []byte
 		if st.Entry == "artifact-http" {
